@@ -539,7 +539,7 @@ def stage_check(workdir, cfg, parts, tier, kinds=('dft',)):
             n = len(taps)
             tag = 'poly%d_n%d_ph%d' % (i, n, r['k'])
             ck.detail[tag] = {'Fp': r['Fp'], 'Fs': r['Fs'], 'Fn': r['Fn'], 'att_designed': r['att'], 'phases': r['k'], 'n': n}
-            if n > (260 if tier == 'quick' else limit) or n % 2 == 0 or not all(taps[j] == taps[n - 1 - j] for j in range(n // 2)):
+            if n > (260 if tier == 'quick' else 600) or n % 2 == 0 or not all(taps[j] == taps[n - 1 - j] for j in range(n // 2)):
                 ck.notes.append('%s: not decided (above the tap limit, even length or not symmetric)' % tag)
                 continue
             n_checked += 1
